@@ -2,6 +2,7 @@
 let () =
   match Array.to_list Sys.argv with
   | _ :: "token" :: _ -> M_token.run ()
+  | _ :: "signals" :: _ -> M_signals.run ()
   | _ :: "transient" :: _ -> M_transient.run ()
   | _ :: "seq" :: scen :: trace :: _ -> M_seq.run scen trace
   | _ -> prerr_endline "usage: driver <token|...>"; exit 2
